@@ -59,6 +59,9 @@ func withBounding(p M, b int) M {
 		q["disallowNegativeValues"] = true
 	case 4:
 		q["allowedValuesRangeScaling"] = -2.0 // any negative factor means "no limits", not only the default -1
+	case 5:
+		q["allowedValuesRangeScaling"] = 1.0 // exactly the criterion's own range, and nothing below zero
+		q["disallowNegativeValues"] = true
 	}
 	return q
 }
